@@ -938,7 +938,8 @@ func newSSAEventFromItem(i Item) (e *ssaEvent) {
 		if len(l.VoiceName) > 0 {
 			e.name = l.VoiceName
 		}
-		lines = append(lines, strings.Join(items, " "))
+		// Items must contain their own spaces, like in Line.String()
+		lines = append(lines, strings.Join(items, ""))
 	}
 	e.text = strings.Join(lines, "\\n")
 	return
